@@ -124,6 +124,29 @@ def plain_sessions(tier):
     return out
 
 
+def _hash160(b):
+    import hashlib
+    return hashlib.new("ripemd160", hashlib.sha256(b).digest()).digest()
+
+
+def explicit_p2sh_sessions(tier):
+    """a P2SH scriptPubKey given as the script on the command line, the redeem script as the last stack argument: the listing
+    has the scriptPubKey's three operations, the '<<< P2SH script >>>' header and the redeem script's operations"""
+    out = []
+    cases = [("51", []), ("527551", []), ("935387", ["01", "02"]), ("76a97c87", ["aa"]), ("00", [])]
+    if tier == "thorough":
+        cases += [("5152935387", []), ("61" * 20 + "51", []), ("4c03aabbcc7551", []), ("7551", ["07"])]
+    for (redeem, st) in cases:
+        spk = "a914" + _hash160(bytes.fromhex(redeem)).hex() + "87"
+        stack = list(st) + [redeem]
+        out.append(dict(kind="spend", cls="explicit-p2sh", label="explicit P2SH scriptPubKey, redeem %s, stack %s" % (redeem, ",".join(st) or "-"),
+                        argv=["0x" + spk] + ["0x" + x for x in stack],
+                        ref=dict(sv=0, flags=F_STANDARD, scripts=[spk, redeem], headers=["", "<<< P2SH script >>>"], explicit_p2sh=True, p2sh=True, commit_steps=0, control="",
+                                 stack=stack, valid=None),
+                        hist=(redeem in ("51", "527551"))))
+    return out
+
+
 def spend_class(plan):
     t = plan["type"]
     if t == "legacy":
@@ -237,14 +260,14 @@ class Plan:
         self.cls = sess["cls"]
         self.commit = r["commit_steps"]
         self.control = r["control"]
-        headers = ["", "<<< scriptPubKey >>>", "<<< P2SH script >>>"]
+        headers = r.get("headers") or ["", "<<< scriptPubKey >>>", "<<< P2SH script >>>"]
         self.ops = [ref.decode(s) for s in r["scripts"]]
         if len(self.ops) > 3:
             raise RuntimeError("plan with more than three scripts")
         M = [dict(kind="commit", i=i) for i in range(self.commit)]
         for si, ops in enumerate(self.ops):
             if si:
-                M.append(dict(kind="switch", header=headers[si], p2sh=(si == 2)))
+                M.append(dict(kind="switch", header=headers[si], p2sh=(headers[si] == "<<< P2SH script >>>")))
             for j, (code, data) in enumerate(ops):
                 M.append(dict(kind="op", s=si, j=j, code=code, data=data))
         M.append(dict(kind="verdict"))
@@ -271,7 +294,7 @@ class Plan:
             self.stack_oracle = "none"
         else:
             cur = list(r["stack"])
-            sigend = None
+            sigend = list(cur) if r.get("explicit_p2sh") else None   # explicit P2SH session: the stack arguments play the scriptSig's part
             for k, m in enumerate(M):
                 if cur is None:
                     break
@@ -843,6 +866,7 @@ def run(ctx):
         spends = spend_sessions(ctx.bdir, ctx.tier)
     except Exception as e:  # noqa: BLE001
         return _infra("mc_gen plans failed: %r" % e)
+    spends += explicit_p2sh_sessions(ctx.tier)
     plains = plain_sessions(ctx.tier)
     jobs = spends + plains
     random.Random(ctx.seed).shuffle(jobs)                 # the seed only permutes the order
